@@ -30,6 +30,8 @@ def run(ctx):
     ctx.guard(ref_rule, ctx, am)
     from . import linkedset
     ctx.guard(linkedset.check, ctx, 'C02-PARTNERS')
+    ctx.guard(fresh_results, ctx)
+    ctx.guard(new_order, ctx)
     from . import c10 as _c10
     ctx.shared(_c10.access, ctx)            # referential attributes are read through Class.__getattr__ / the declared cell
     ctx.assume('induction hypothesis for C02-ATOMIC/unrelate: the two directed links mirror each other '
@@ -217,6 +219,86 @@ def linkops(ctx):
     r.check(good, 'Link.navigate returns the stored partner set of its instance (an empty collection for an unconnected one)', fn,
             construct='xtuml.meta:Link.navigate', key='navigate',
             msg='Link.navigate no longer returns self[%s]' % p)
+
+
+def new_order(ctx):
+    '''an instance is in the pool of its class before it is linked to anything: if the batch relate of MetaClass.new is rejected
+    half way, what the already linked partners reach is at least a live instance (that delete can find and unlink)'''
+    from .. import cfg as cfgmod
+    repo = ctx.repo
+    r = ctx.rule('C02-POOL-FIRST', 'MetaClass.new puts the instance into the pool before it relates it', floor=2,
+                 oracle='property statement (only live instances are reachable, also after a rejected operation)')
+    Q = 'xtuml.meta:MetaClass.new'
+    fn = repo.func(Q)
+    g = cfgmod.build(fn)
+    paths = g.paths(follow_exc=False)
+
+    def is_append(n):
+        return n.kind == 'stmt' and any(isinstance(c, ast.Call) and pm.match('self.storage.append(_I)', c) is not None for c in ast.walk(n.ast))
+
+    def is_relate(n):
+        return n.kind in ('stmt', 'test', 'for') and n.ast is not None and any(
+            isinstance(c, ast.Call) and (dotted(c.func) or '').split('.')[-1] in ('relate', 'connect', 'batch_relate') for c in ast.walk(n.ast))
+    n_rel = 0
+    bad = None
+    for p_ in paths:
+        seen_append = False
+        for n, _lab in p_:
+            if is_append(n):
+                seen_append = True
+            if is_relate(n):
+                n_rel += 1
+                if not seen_append and bad is None:
+                    bad = n
+    r.check(n_rel >= 1, 'MetaClass.new relates the instance on %d path positions' % n_rel, fn, construct=Q, key='relates',
+            msg='MetaClass.new no longer relates the new instance (referential keyword arguments)')
+    r.check(bad is None, 'on every path the instance is appended to self.storage before the first relate', bad.ast if bad is not None else fn, construct=Q,
+            key='pool-first', msg='MetaClass.new relates the new instance (`%s`) on a path where it is not yet in self.storage: if a later relate of '
+                                  'the batch is rejected, the instances linked so far reach an instance that is in no pool and that no delete can '
+                                  'find' % (src(bad.ast)[:60] if bad is not None else ''))
+
+
+def fresh_results(ctx):
+    '''reading never changes the links: whatever a navigation / query function of xtuml.meta grows or shrinks in place (|=, .add,
+    .update, .append ...) is a container it created itself, never the live partner set a Link hands out'''
+    repo = ctx.repo
+    r = ctx.rule('C02-READONLY', 'navigations and queries accumulate into containers of their own, never into a live link set', floor=2,
+                 oracle='property statement (navigation reflects the links; it does not alter them)')
+    FRESH = ('OrderedSet', 'QuerySet', 'set', 'list', 'dict', 'frozenset', 'sorted', 'tuple')
+    MUT = ('add', 'update', 'append', 'extend', 'insert', 'remove', 'discard', 'pop', 'clear', 'intersection_update', 'difference_update',
+           'symmetric_difference_update')
+    n = 0
+    for q in ('xtuml.meta:MetaClass.navigate', 'xtuml.meta:NavChain._nav', 'xtuml.meta:NavChain.nav', 'xtuml.meta:Link.navigate',
+              'xtuml.meta:Link.navigate_one', 'xtuml.meta:MetaClass.select_many', 'xtuml.meta:MetaClass.select_one', 'xtuml.meta:MetaClass.query',
+              'xtuml.meta:apply_query_operators', 'xtuml.meta:navigate_subtype', 'xtuml.meta:sort_reflexive'):
+        fn = repo.func(q, required=False)
+        if fn is None:
+            continue
+        mutated = {}
+        for x in ast.walk(fn):
+            if isinstance(x, ast.AugAssign) and isinstance(x.target, ast.Name) and isinstance(x.op, (ast.BitOr, ast.BitAnd, ast.Sub, ast.Add, ast.BitXor)):
+                mutated.setdefault(x.target.id, x)
+            elif isinstance(x, ast.Call) and isinstance(x.func, ast.Attribute) and isinstance(x.func.value, ast.Name) and x.func.attr in MUT:
+                mutated.setdefault(x.func.value.id, x)
+        params = set(param_names(fn, skip_self=False))
+        for name, site in sorted(mutated.items()):
+            vals = [a.value for a in ast.walk(fn) if isinstance(a, ast.Assign) and any(isinstance(t, ast.Name) and t.id == name for t in a.targets)]
+            n += 1
+
+            def fresh(v):
+                if isinstance(v, (ast.List, ast.Set, ast.Dict, ast.ListComp, ast.SetComp, ast.DictComp)):
+                    return True
+                if isinstance(v, ast.Constant) and isinstance(v.value, (int, float, str, bool)) :
+                    return True       # numbers / text: += re-binds
+                return isinstance(v, ast.Call) and (dotted(v.func) or '').split('.')[-1] in FRESH
+            bad = [v for v in vals if not fresh(v)]
+            r.check(bool(vals) and not bad and name not in params, '%s: `%s` (changed in place by `%s`) is a container the function created' % (
+                q.split(':')[1], name, src(site)[:40]), site, construct=q, key='alias ' + name,
+                msg='%s changes `%s` in place (`%s`) although it was bound to `%s`: when that is the live partner set of a link (what '
+                    'Link.navigate returns), a mere navigation re-writes the links -- a single-valued end gets two partners and the '
+                    'opposite direction does not know' % (q, name, src(site)[:50], src(bad[0])[:50] if bad else 'a parameter'))
+    r.check(n >= 1, '%d accumulators examined' % n, repo.func('xtuml.meta:MetaClass.navigate'), construct='xtuml.meta:MetaClass.navigate', key='accumulators',
+            msg='no in-place accumulator found in the navigation functions')
 
 
 def _need_has(s):
